@@ -45,6 +45,12 @@ CHECKS.update({
          "interleavings are those produced (counted by signature); a watchdog expiry without the two-dump confirmation is inconclusive, never a violation",
          "DESIGN.md section 4 C08"),
 })
+CHECKS.update({
+ 'C13': ("four-way differential monitor (JSON/YAML/TOML/Cue decoders on documents rendered from one data tree) plus generating-data oracle, renderer self-check, ill-typed/malformed classes known by construction",
+         "Seeded reflect.StructOf schemas (dials tags in several casings, format-specific tags that must win for that format only, dials:\"-\" fields, decoys under keys a format must not read) and one data tree per case are rendered by four harness renderers and decoded by the real decoders; every decoder's output must equal the tree (absent keys unset, durations as strings and integer ns, sets via the set-to-slice wrapper, text-unmarshalables), the four results and their stacks over random defaults must agree, and documents that are malformed or ill-typed by construction must yield an error and no value. Before any disagreement is reported the document is re-parsed untyped with the format's own library (a failing self-check is a harness failure, never a violation).",
+         "only data expressible in all four formats; mismatch classes on which the underlying libraries legitimately differ are excluded and listed in the check's assumptions; map[string]struct values are observed only",
+         "DESIGN.md section 4 C13"),
+})
 NOT_YET = "check not yet built in this session (planned in DESIGN.md section 4; the technique applies)"
 
 def main():
